@@ -3023,9 +3023,10 @@ let table =
     RvFalse)) :: (Body :: [])) } :: ({ e_name =
     (X73 :: (X70 :: (X69 :: (X66 :: (X5f :: (X6c :: (X69 :: (X6e :: (X6b :: (X65 :: (X64 :: (X5f :: (X6c :: (X69 :: (X73 :: (X74 :: (X5f :: (X69 :: (X74 :: (X65 :: (X72 :: (X61 :: (X74 :: (X6f :: (X72 :: [])))))))))))))))))))))))));
     e_reach = Slot; e_ret = TPtr; e_params = (true :: []); e_self = (Some O);
-    e_slots = (S (S (S O))); e_parsed = true; e_prelude = ((Delegate
+    e_slots = (S (S (S O))); e_parsed = true; e_prelude = ((Guard (GAssert,
+    (O :: []), RvNull)) :: ((Delegate
     ((X73 :: (X70 :: (X69 :: (X66 :: (X5f :: (X6c :: (X69 :: (X6e :: (X6b :: (X65 :: (X64 :: (X5f :: (X6c :: (X69 :: (X73 :: (X74 :: (X5f :: (X69 :: (X74 :: (X65 :: (X72 :: (X61 :: (X74 :: (X6f :: (X72 :: (X5f :: (X6e :: (X65 :: (X77 :: []))))))))))))))))))))))))))))),
-    ((Some O) :: []), PId)) :: []) } :: ({ e_name =
+    ((Some O) :: []), PId)) :: [])) } :: ({ e_name =
     (X73 :: (X70 :: (X69 :: (X66 :: (X5f :: (X6c :: (X69 :: (X6e :: (X6b :: (X65 :: (X64 :: (X5f :: (X6c :: (X69 :: (X73 :: (X74 :: (X5f :: (X70 :: (X72 :: (X65 :: (X70 :: (X65 :: (X6e :: (X64 :: []))))))))))))))))))))))));
     e_reach = Slot; e_ret = TBool; e_params = (true :: (true :: []));
     e_self = (Some O); e_slots = (S O); e_parsed = true; e_prelude = ((Guard
@@ -3159,7 +3160,8 @@ let table =
     (X73 :: (X70 :: (X69 :: (X66 :: (X5f :: (X64 :: (X6c :: (X69 :: (X6e :: (X6b :: (X65 :: (X64 :: (X5f :: (X6c :: (X69 :: (X73 :: (X74 :: (X5f :: (X69 :: (X74 :: (X65 :: (X6d :: (X5f :: (X63 :: (X6f :: (X6d :: (X70 :: [])))))))))))))))))))))))))));
     e_reach = Slot; e_ret = TCmp; e_params = (true :: (true :: [])); e_self =
     (Some O); e_slots = (S O); e_parsed = true; e_prelude = ((CompNull (O, (S
-    O))) :: (Body :: [])) } :: ({ e_name =
+    O))) :: ((Deref O) :: ((Deref (S O)) :: ((Guard (GRequire, [],
+    RvOther)) :: (Body :: []))))) } :: ({ e_name =
     (X73 :: (X70 :: (X69 :: (X66 :: (X5f :: (X64 :: (X6c :: (X69 :: (X6e :: (X6b :: (X65 :: (X64 :: (X5f :: (X6c :: (X69 :: (X73 :: (X74 :: (X5f :: (X69 :: (X74 :: (X65 :: (X6d :: (X5f :: (X64 :: (X75 :: (X70 :: []))))))))))))))))))))))))));
     e_reach = Slot; e_ret = TPtr; e_params = (true :: []); e_self = (Some O);
     e_slots = (S O); e_parsed = true; e_prelude = ((Guard (GAssert,
@@ -3338,7 +3340,8 @@ let table =
     (X73 :: (X70 :: (X69 :: (X66 :: (X5f :: (X64 :: (X6c :: (X69 :: (X6e :: (X6b :: (X65 :: (X64 :: (X5f :: (X6c :: (X69 :: (X73 :: (X74 :: (X5f :: (X72 :: (X65 :: (X6d :: (X6f :: (X76 :: (X65 :: []))))))))))))))))))))))));
     e_reach = Slot; e_ret = TPtr; e_params = (true :: (true :: [])); e_self =
     (Some O); e_slots = (S (S O)); e_parsed = true; e_prelude = ((Guard
-    (GAssert, (O :: []), RvNull)) :: (Body :: [])) } :: ({ e_name =
+    (GAssert, (O :: []), RvNull)) :: ((Guard (GRequire, ((S O) :: []),
+    RvNull)) :: (Body :: []))) } :: ({ e_name =
     (X73 :: (X70 :: (X69 :: (X66 :: (X5f :: (X64 :: (X6c :: (X69 :: (X6e :: (X6b :: (X65 :: (X64 :: (X5f :: (X6c :: (X69 :: (X73 :: (X74 :: (X5f :: (X6d :: (X61 :: (X70 :: (X5f :: (X72 :: (X65 :: (X6d :: (X6f :: (X76 :: (X65 :: []))))))))))))))))))))))))))));
     e_reach = Slot; e_ret = TPtr; e_params = (true :: (true :: [])); e_self =
     (Some O); e_slots = (S O); e_parsed = true; e_prelude = ((Guard (GAssert,
@@ -3409,10 +3412,11 @@ let table =
     RvHandled)) :: (Body :: [])) } :: ({ e_name =
     (X73 :: (X70 :: (X69 :: (X66 :: (X5f :: (X64 :: (X6c :: (X69 :: (X6e :: (X6b :: (X65 :: (X64 :: (X5f :: (X6c :: (X69 :: (X73 :: (X74 :: (X5f :: (X69 :: (X74 :: (X65 :: (X72 :: (X61 :: (X74 :: (X6f :: (X72 :: (X5f :: (X63 :: (X6f :: (X6d :: (X70 :: [])))))))))))))))))))))))))))))));
     e_reach = Slot; e_ret = TCmp; e_params = (true :: (true :: [])); e_self =
-    (Some O); e_slots = (S O); e_parsed = true; e_prelude = ((Deref
-    O) :: ((Deref (S O)) :: ((Delegate
+    (Some O); e_slots = (S O); e_parsed = true; e_prelude = ((CompNull (O, (S
+    O))) :: ((Deref O) :: ((Deref (S O)) :: ((Guard (GRequire, [],
+    RvOther)) :: ((Deref O) :: ((Deref (S O)) :: ((Delegate
     ((X73 :: (X70 :: (X69 :: (X66 :: (X5f :: (X64 :: (X6c :: (X69 :: (X6e :: (X6b :: (X65 :: (X64 :: (X5f :: (X6c :: (X69 :: (X73 :: (X74 :: (X5f :: (X63 :: (X6f :: (X6d :: (X70 :: [])))))))))))))))))))))),
-    (None :: (None :: [])), PId)) :: []))) } :: ({ e_name =
+    (None :: (None :: [])), PId)) :: []))))))) } :: ({ e_name =
     (X73 :: (X70 :: (X69 :: (X66 :: (X5f :: (X64 :: (X6c :: (X69 :: (X6e :: (X6b :: (X65 :: (X64 :: (X5f :: (X6c :: (X69 :: (X73 :: (X74 :: (X5f :: (X69 :: (X74 :: (X65 :: (X72 :: (X61 :: (X74 :: (X6f :: (X72 :: (X5f :: (X64 :: (X75 :: (X70 :: []))))))))))))))))))))))))))))));
     e_reach = Slot; e_ret = TPtr; e_params = (true :: []); e_self = (Some O);
     e_slots = (S O); e_parsed = true; e_prelude = ((Guard (GAssert,
@@ -4043,6 +4047,7 @@ let named_cells =
     O) :: (((X73 :: (X70 :: (X69 :: (X66 :: (X5f :: (X6c :: (X69 :: (X6e :: (X6b :: (X65 :: (X64 :: (X5f :: (X6c :: (X69 :: (X73 :: (X74 :: (X5f :: (X69 :: (X6e :: (X64 :: (X65 :: (X78 :: [])))))))))))))))))))))),
     O) :: (((X73 :: (X70 :: (X69 :: (X66 :: (X5f :: (X6c :: (X69 :: (X6e :: (X6b :: (X65 :: (X64 :: (X5f :: (X6c :: (X69 :: (X73 :: (X74 :: (X5f :: (X69 :: (X6e :: (X73 :: (X65 :: (X72 :: (X74 :: []))))))))))))))))))))))),
     O) :: (((X73 :: (X70 :: (X69 :: (X66 :: (X5f :: (X6c :: (X69 :: (X6e :: (X6b :: (X65 :: (X64 :: (X5f :: (X6c :: (X69 :: (X73 :: (X74 :: (X5f :: (X69 :: (X6e :: (X73 :: (X65 :: (X72 :: (X74 :: (X5f :: (X61 :: (X74 :: [])))))))))))))))))))))))))),
+    O) :: (((X73 :: (X70 :: (X69 :: (X66 :: (X5f :: (X6c :: (X69 :: (X6e :: (X6b :: (X65 :: (X64 :: (X5f :: (X6c :: (X69 :: (X73 :: (X74 :: (X5f :: (X69 :: (X74 :: (X65 :: (X72 :: (X61 :: (X74 :: (X6f :: (X72 :: []))))))))))))))))))))))))),
     O) :: (((X73 :: (X70 :: (X69 :: (X66 :: (X5f :: (X6c :: (X69 :: (X6e :: (X6b :: (X65 :: (X64 :: (X5f :: (X6c :: (X69 :: (X73 :: (X74 :: (X5f :: (X70 :: (X72 :: (X65 :: (X70 :: (X65 :: (X6e :: (X64 :: [])))))))))))))))))))))))),
     O) :: (((X73 :: (X70 :: (X69 :: (X66 :: (X5f :: (X6c :: (X69 :: (X6e :: (X6b :: (X65 :: (X64 :: (X5f :: (X6c :: (X69 :: (X73 :: (X74 :: (X5f :: (X72 :: (X65 :: (X6d :: (X6f :: (X76 :: (X65 :: []))))))))))))))))))))))),
     O) :: (((X73 :: (X70 :: (X69 :: (X66 :: (X5f :: (X6c :: (X69 :: (X6e :: (X6b :: (X65 :: (X64 :: (X5f :: (X6c :: (X69 :: (X73 :: (X74 :: (X5f :: (X72 :: (X65 :: (X6d :: (X6f :: (X76 :: (X65 :: []))))))))))))))))))))))),
@@ -4110,7 +4115,9 @@ let named_cells =
     O) :: (((X73 :: (X70 :: (X69 :: (X66 :: (X5f :: (X64 :: (X6c :: (X69 :: (X6e :: (X6b :: (X65 :: (X64 :: (X5f :: (X6c :: (X69 :: (X73 :: (X74 :: (X5f :: (X69 :: (X74 :: (X65 :: (X72 :: (X61 :: (X74 :: (X6f :: (X72 :: [])))))))))))))))))))))))))),
     O) :: (((X73 :: (X70 :: (X69 :: (X66 :: (X5f :: (X64 :: (X6c :: (X69 :: (X6e :: (X6b :: (X65 :: (X64 :: (X5f :: (X6c :: (X69 :: (X73 :: (X74 :: (X5f :: (X70 :: (X72 :: (X65 :: (X70 :: (X65 :: (X6e :: (X64 :: []))))))))))))))))))))))))),
     O) :: (((X73 :: (X70 :: (X69 :: (X66 :: (X5f :: (X64 :: (X6c :: (X69 :: (X6e :: (X6b :: (X65 :: (X64 :: (X5f :: (X6c :: (X69 :: (X73 :: (X74 :: (X5f :: (X72 :: (X65 :: (X6d :: (X6f :: (X76 :: (X65 :: [])))))))))))))))))))))))),
-    O) :: (((X73 :: (X70 :: (X69 :: (X66 :: (X5f :: (X64 :: (X6c :: (X69 :: (X6e :: (X6b :: (X65 :: (X64 :: (X5f :: (X6c :: (X69 :: (X73 :: (X74 :: (X5f :: (X6d :: (X61 :: (X70 :: (X5f :: (X72 :: (X65 :: (X6d :: (X6f :: (X76 :: (X65 :: [])))))))))))))))))))))))))))),
+    O) :: (((X73 :: (X70 :: (X69 :: (X66 :: (X5f :: (X64 :: (X6c :: (X69 :: (X6e :: (X6b :: (X65 :: (X64 :: (X5f :: (X6c :: (X69 :: (X73 :: (X74 :: (X5f :: (X72 :: (X65 :: (X6d :: (X6f :: (X76 :: (X65 :: [])))))))))))))))))))))))),
+    (S
+    O)) :: (((X73 :: (X70 :: (X69 :: (X66 :: (X5f :: (X64 :: (X6c :: (X69 :: (X6e :: (X6b :: (X65 :: (X64 :: (X5f :: (X6c :: (X69 :: (X73 :: (X74 :: (X5f :: (X6d :: (X61 :: (X70 :: (X5f :: (X72 :: (X65 :: (X6d :: (X6f :: (X76 :: (X65 :: [])))))))))))))))))))))))))))),
     O) :: (((X73 :: (X70 :: (X69 :: (X66 :: (X5f :: (X64 :: (X6c :: (X69 :: (X6e :: (X6b :: (X65 :: (X64 :: (X5f :: (X6c :: (X69 :: (X73 :: (X74 :: (X5f :: (X6d :: (X61 :: (X70 :: (X5f :: (X72 :: (X65 :: (X6d :: (X6f :: (X76 :: (X65 :: [])))))))))))))))))))))))))))),
     (S
     O)) :: (((X73 :: (X70 :: (X69 :: (X66 :: (X5f :: (X64 :: (X6c :: (X69 :: (X6e :: (X6b :: (X65 :: (X64 :: (X5f :: (X6c :: (X69 :: (X73 :: (X74 :: (X5f :: (X72 :: (X65 :: (X6d :: (X6f :: (X76 :: (X65 :: (X5f :: (X61 :: (X74 :: []))))))))))))))))))))))))))),
@@ -4173,23 +4180,15 @@ let named_cells =
     O) :: (((X6c :: (X69 :: (X62 :: (X61 :: (X73 :: (X74 :: (X5f :: (X70 :: (X72 :: (X69 :: (X6e :: (X74 :: (X5f :: (X65 :: (X72 :: (X72 :: (X6f :: (X72 :: [])))))))))))))))))),
     O) :: (((X6c :: (X69 :: (X62 :: (X61 :: (X73 :: (X74 :: (X5f :: (X70 :: (X72 :: (X69 :: (X6e :: (X74 :: (X5f :: (X77 :: (X61 :: (X72 :: (X6e :: (X69 :: (X6e :: (X67 :: [])))))))))))))))))))),
     O) :: (((X6c :: (X69 :: (X62 :: (X61 :: (X73 :: (X74 :: (X5f :: (X66 :: (X61 :: (X74 :: (X61 :: (X6c :: (X5f :: (X65 :: (X72 :: (X72 :: (X6f :: (X72 :: [])))))))))))))))))),
-    O) :: []))))))))))))))))))))))))))))))))))))))))))))))))))))))))))))))))))))))))))))))))))))))))))))))))))))))))))))))))))))))))))))))))))))))))))))))))))))))))))))))))))))))))))))))))))))))))))))))))))))))))))))))))))))))))))))))))))))))))))))))))))))))))))))))))))))))))))))))))))))))))))))))))))))))))))))))))))))))))))))))))))))))))))))))))))))))))))))))))))))))))))))))))))))))))))))))))))))))))))))))))))))))))))))))))))))))))
+    O) :: []))))))))))))))))))))))))))))))))))))))))))))))))))))))))))))))))))))))))))))))))))))))))))))))))))))))))))))))))))))))))))))))))))))))))))))))))))))))))))))))))))))))))))))))))))))))))))))))))))))))))))))))))))))))))))))))))))))))))))))))))))))))))))))))))))))))))))))))))))))))))))))))))))))))))))))))))))))))))))))))))))))))))))))))))))))))))))))))))))))))))))))))))))))))))))))))))))))))))))))))))))))))))))))))))))))))))))
 
 (** val exempt : cell list **)
 
 let exempt =
-  ((X73 :: (X70 :: (X69 :: (X66 :: (X5f :: (X6c :: (X69 :: (X6e :: (X6b :: (X65 :: (X64 :: (X5f :: (X6c :: (X69 :: (X73 :: (X74 :: (X5f :: (X69 :: (X74 :: (X65 :: (X72 :: (X61 :: (X74 :: (X6f :: (X72 :: []))))))))))))))))))))))))),
-    O) :: (((X73 :: (X70 :: (X69 :: (X66 :: (X5f :: (X64 :: (X6c :: (X69 :: (X6e :: (X6b :: (X65 :: (X64 :: (X5f :: (X6c :: (X69 :: (X73 :: (X74 :: (X5f :: (X69 :: (X74 :: (X65 :: (X72 :: (X61 :: (X74 :: (X6f :: (X72 :: (X5f :: (X63 :: (X6f :: (X6d :: (X70 :: []))))))))))))))))))))))))))))))),
-    O) :: (((X73 :: (X70 :: (X69 :: (X66 :: (X5f :: (X64 :: (X6c :: (X69 :: (X6e :: (X6b :: (X65 :: (X64 :: (X5f :: (X6c :: (X69 :: (X73 :: (X74 :: (X5f :: (X69 :: (X74 :: (X65 :: (X72 :: (X61 :: (X74 :: (X6f :: (X72 :: (X5f :: (X63 :: (X6f :: (X6d :: (X70 :: []))))))))))))))))))))))))))))))),
-    (S
-    O)) :: (((X73 :: (X70 :: (X69 :: (X66 :: (X5f :: (X64 :: (X6c :: (X69 :: (X6e :: (X6b :: (X65 :: (X64 :: (X5f :: (X6c :: (X69 :: (X73 :: (X74 :: (X5f :: (X72 :: (X65 :: (X6d :: (X6f :: (X76 :: (X65 :: [])))))))))))))))))))))))),
-    (S
-    O)) :: (((X73 :: (X70 :: (X69 :: (X66 :: (X5f :: (X64 :: (X6c :: (X69 :: (X6e :: (X6b :: (X65 :: (X64 :: (X5f :: (X6c :: (X69 :: (X73 :: (X74 :: (X5f :: (X69 :: (X6e :: (X73 :: (X65 :: (X72 :: (X74 :: [])))))))))))))))))))))))),
-    (S
-    O)) :: (((X73 :: (X70 :: (X69 :: (X66 :: (X5f :: (X72 :: (X65 :: (X67 :: (X65 :: (X78 :: (X70 :: (X5f :: (X73 :: (X65 :: (X74 :: (X5f :: (X66 :: (X6c :: (X61 :: (X67 :: (X73 :: []))))))))))))))))))))),
-    (S O)) :: [])))))
+  ((X73 :: (X70 :: (X69 :: (X66 :: (X5f :: (X72 :: (X65 :: (X67 :: (X65 :: (X78 :: (X70 :: (X5f :: (X73 :: (X65 :: (X74 :: (X5f :: (X66 :: (X6c :: (X61 :: (X67 :: (X73 :: []))))))))))))))))))))),
+    (S O)) :: []
 
 (** val table_digest : fname **)
 
 let table_digest =
-  X65 :: (X30 :: (X39 :: (X31 :: (X36 :: (X61 :: (X34 :: (X61 :: (X33 :: (X30 :: (X32 :: (X38 :: (X31 :: (X62 :: (X61 :: (X35 :: [])))))))))))))))
+  X35 :: (X38 :: (X66 :: (X61 :: (X36 :: (X65 :: (X35 :: (X66 :: (X66 :: (X64 :: (X30 :: (X33 :: (X38 :: (X35 :: (X31 :: (X32 :: [])))))))))))))))
